@@ -20,6 +20,7 @@ PRELUDE = """
     #[diplomat::attr(kotlin, error)]
     pub struct S2b<'a, 'b: 'a> { pub x: &'a Op, pub y: &'b Op }
     pub struct NestB<'a> { pub inner: SB<'a>, pub n: u8 }
+    pub struct S3<'a, 'b, 'c: 'b> { pub x: &'a Op, pub y: &'b Op, pub z: &'c Op }
     pub struct SSl<'a> { pub s: DiplomatSlice<'a, u8>, pub r: &'a Op }
     pub struct SSl2<'a, 'b> { pub s: DiplomatSlice<'a, u8>, pub t: DiplomatStr16Slice<'b>, pub n: u8 }
     #[diplomat::out]
@@ -78,6 +79,11 @@ PARAM_FORMS = [
     Form("u32", 0, lambda l: "u32", lambda l: []),
 ]
 PARAM_FORMS_BY_NAME = {f.name: f for f in PARAM_FORMS}
+# forms used by single checks only (not part of the C04 parameter menu): a three-slot struct whose definition-site bound sits on
+# the last slot, so that the first two slots can carry the same use-site lifetime
+S3_PARAM = Form("S3<'x,'y,'z>", 3, lambda l: "S3<%s, %s, %s>" % (_lt(l[0]), _lt(l[1]), _lt(l[2])),
+                lambda l: [("struct", "a", l[0]), ("struct", "b", l[1]), ("struct", "c", l[2])], lambda l: [(l[2], l[1])])
+PARAM_FORMS_BY_NAME[S3_PARAM.name] = S3_PARAM
 
 # ---- return forms ---------------------------------------------------------------------------
 RET_FORMS = [
@@ -103,6 +109,9 @@ RET_FORMS = [
          lambda l: [("struct", "a", l[0]), ("struct", "b", l[1])], lambda l: [(l[1], l[0])]),
     Form("Result<&'r Op, ()>", 1, lambda l: "Result<&%s Op, ()>" % _lt(l[0]), lambda l: [("opaque", None, l[0])]),
 ]
+
+S3_RET = Form("S3<'r,'s,'t>", 3, lambda l: "S3<%s, %s, %s>" % (_lt(l[0]), _lt(l[1]), _lt(l[2])),
+              lambda l: [("struct", "a", l[0]), ("struct", "b", l[1]), ("struct", "c", l[2])], lambda l: [(l[2], l[1])])
 
 # ---- self forms: (name, owner type, impl generics builder, self text builder, slots, implied)
 SELF_FORMS = [
@@ -201,6 +210,8 @@ class Sig:
         for f, l in list(self.params) + [(self.ret, self.ret_l)]:
             if "S2b<" in f.name:
                 b.add((l[1], l[0]))
+            elif f.name.startswith("S3<"):
+                b.add((l[2], l[1]))
         return {(x, y) for (x, y) in b if x != y}
 
     def ref_implied_bounds(self):
@@ -209,7 +220,7 @@ class Sig:
         if self.selff == "&'x self on OpL<'y>":
             b.add((self.self_l[1], self.self_l[0]))
         for f, l in list(self.params) + [(self.ret, self.ret_l)]:
-            if "S2b<" not in f.name:
+            if "S2b<" not in f.name and not f.name.startswith("S3<"):
                 b.update(f.implied(l))
         return {(x, y) for (x, y) in b if x != y}
 
